@@ -71,6 +71,7 @@ func (f *Frame) makeMap(t types.Type) Val {
 	f.heapSet(mi.dom, mi.domS, app("store", f.heapGet(mi.dom, mi.domS), ref, "((as const "+arrSort(mi.kSort, "Bool")+") false)"))
 	f.heapSet(mi.ln, mi.lnS, app("store", f.heapGet(mi.ln, mi.lnS), ref, "0"))
 	f.heapGet(mi.val, mi.valS)
+	f.chargeBytes("48")
 	return S{ref, t}
 }
 
